@@ -19,7 +19,7 @@ import tempfile
 from harness import core, gen, histcheck, isoapi
 from harness.props import c01
 
-LEAN_MODULES = ['Pycdlib.Props.C06']
+LEAN_MODULES = ['Pycdlib.Props.C06', 'Pycdlib.Props.C16Cache']
 THEOREMS = ['Pycdlib.Lazy.schedule_irrelevant', 'Pycdlib.Lazy.force_then_query', 'Pycdlib.Lazy.run_coherent',
             'Pycdlib.Lazy.run_edit', 'Pycdlib.Lazy.step_coherent', 'Pycdlib.Lazy.stale_flag_needed']
 PARTIAL = {}
